@@ -27,7 +27,7 @@ ASSUMPTIONS = [
 RULE = ("one run = one sampler configuration (mode: initial hypergraph / degree+size sequences / model alone) and the first few yielded samples, "
         "each checked for validity and conditioning; the same configuration is sampled twice (same seed) and must give identical samples.  "
         "Non-trivial: >= 1 sample produced and >= 1 accepted chain move or adversarial draw; distinct = draw-trace digests.")
-TIERS = {"quick": {"runs": 1500, "wall_cap": 240, "det_seeds": 8, "min_tests": 200},
+TIERS = {"quick": {"runs": 8000, "wall_cap": 240, "det_seeds": 8, "min_tests": 200},
          "thorough": {"runs": 40000, "wall_cap": 3000, "det_seeds": 30, "min_tests": 600}}
 
 
@@ -237,3 +237,8 @@ def simplify(case):
                 c2 = json.loads(json.dumps(c))
                 del c2["spec"]["edges"][i]
                 yield c2
+
+
+def sim_time(stats):
+    c = stats.get("c16", {})
+    return {"unit": "MCMC chain moves (accepted + rejected) of the first run of each configuration", "value": c.get("accepted_moves", 0) + c.get("rejected_moves", 0)}
